@@ -143,7 +143,7 @@ class MAC(EVPN):
         iplen_bits = self._packed[31]
         iplen_bytes = iplen_bits // 8 if iplen_bits else 0
         label_start = 32 + iplen_bytes
-        return Labels.unpack_labels(self._packed[label_start : label_start + 3])
+        return Labels.unpack_labels(self._packed[label_start:])
 
     def index(self) -> bytes:
         # Note: Per RFC 7432 Section 7.2, the route key for Type 2 should only include
